@@ -23,7 +23,8 @@ RULE = (
     "LD: the same but loading the snapshot of a derived circuit into the fresh derived circuit}; invariant after every L/LD: "
     "the fresh operand and every fresh derived circuit reproduce the outputs recorded at the save on all inputs; in every state "
     "the learnable entries of state_dict(keep_vars=True) are in bijection with the circuit's nn.Parameters and with the "
-    "learnable symbolic tensors' compiled storage. State key = (rounded operand tensor bytes, snapshot bytes)"
+    "learnable symbolic tensors' compiled storage; the same exploration on partially frozen models (every second parameterised "
+    "layer non-learnable with a random initialiser). State key = (rounded operand tensor bytes, snapshot bytes)"
 )
 ASSUMPTIONS = ["aliasing of one operand tensor under several pointer keys in a derived circuit's dictionary is not counted as a duplicate",
                "fresh instances are compiled from the same symbolic objects with a new TorchCompiler"]
@@ -39,6 +40,12 @@ def cases(tier, seed):
         for semiring, fold, optimize in [("sum-product", False, False), ("sum-product", True, True), ("sum-product", True, False),
                                          ("complex-lse-sum", False, True)]:
             yield {"base": bi, "semiring": semiring, "fold": fold, "optimize": optimize, "depth": BOUNDS[tier]["depth"]}
+    # partially frozen models: every second parameterised layer holds NON-learnable tensors with a random initialiser (their
+    # fresh values differ between two compilations, so only the state dictionary can carry them over)
+    for bi in range(min(4, BOUNDS[tier]["bases"])):
+        for frozen in (("even", "odd") if tier == "thorough" else ("even",) if bi % 2 == 0 else ("odd",)):
+            for semiring, fold, optimize in [("sum-product", True, True), ("sum-product", False, False)]:
+                yield {"base": bi, "semiring": semiring, "fold": fold, "optimize": optimize, "depth": BOUNDS[tier]["depth"] - 1, "frozen": frozen}
 
 
 class World:
@@ -46,6 +53,12 @@ class World:
         self.case = case
         base = BASES[case["base"]]
         pspec, self.targets = pipeline_spec(base)
+        if case.get("frozen"):
+            layers = pspec["circuits"][0]["layers"]
+            par = [i for i, l in enumerate(layers) if l["t"] not in ("had", "kro")]
+            for j, i in enumerate(par):
+                if (j % 2 == 0) == (case["frozen"] == "even"):
+                    layers[i] = dict(layers[i], frozen=True)
         self.pipe = Pipeline(pspec)
         self.flags = (case["semiring"], case["fold"], case["optimize"])
         self.cc = Compiled(self.pipe.circuits, *self.flags, compile_only=[0] + self.targets)
@@ -182,7 +195,7 @@ def run_case(case):
     res = bfs.explore(lambda: {"saved": False}, enabled, replay_factory(case, seed), case["depth"], isolate=False)
     out = {"status": "violation" if res.violations else "ok", "nontrivial": res.states > 1, "nontrivial_n": max(0, res.states - 1),
            "states": res.states, "transitions": res.transitions, "traces": res.replays, "evaluations": res.transitions,
-           "dims": {"base": case["base"], "cfg": f"{case['semiring']}/{case['fold']}/{case['optimize']}"},
+           "dims": {"base": case["base"], "cfg": f"{case['semiring']}/{case['fold']}/{case['optimize']}", "frozen": str(case.get("frozen"))},
            "outcome": f"{res.states}", "summary": f"states={res.states} transitions={res.transitions} e.g. {res.sample_histories[:1]}"}
     if res.violations:
         out["violations"] = [{"sig": sig, "detail": msg, "case": dict(case, history=hist)} for hist, msg, sig in res.violations]
